@@ -1484,6 +1484,7 @@ fn check_slice(rep: &Reporter, c: &SeqCase, r: &Result<(Xresult, Vec<Cell>), Str
 fn explore_sort(cfg: &Cfg, rep: &Reporter, ev_: &mut Evidence, max_len: usize) {
     const FAMS: &[(&str, &[&str])] = &[
         ("int", &["3", "-1", "0", "1180591620717411303424", "-1 ^{ \"t\" \"k\" ^}"]),
+        ("int-all-tagged-or-formatted", &["3 ^hex", "-1", "255 ^hex", "16", "0 ^{ \"t\" \"k\" ^}"]),
         ("real", &["2.5", "-1.5", "0.0", "1.0e300", "-0.0"]),
         ("str", &["\"b\"", "\"a\"", "\"\"", "\"ab\"", "\"B\""]),
     ];
@@ -1550,10 +1551,11 @@ fn explore_sort(cfg: &Cfg, rep: &Reporter, ev_: &mut Evidence, max_len: usize) {
                             } else if out.windows(2).any(|w| !le(&w[0], &w[1])) {
                                 why = "not ascending".into();
                             } else {
-                                // permutation: multiset equality under the language's equality
+                                // permutation of the very elements that went in: equal under the language's equality
+                                // AND carrying the same tags
                                 let mut left = model.clone();
                                 for x in &out {
-                                    match left.iter().position(|y| y == x) {
+                                    match left.iter().position(|y| same(y, x)) {
                                         Some(p) => {
                                             left.swap_remove(p);
                                         }
